@@ -210,7 +210,7 @@ _pkce_mod.httpx2 = _HttpxProxy()  # type: ignore[assignment]
 _NAME_POOL = ["health", "healthz", "health_check", "healthcheck", "health2", "Health", "heal", "describe", "describe_all", "describer",
               "init", "exchange", "oauth", "oauth_callback", "wellknown", "session", "upload_url", "introspect_token", "ping", "add", "h"]
 _FRAMEWORK_NAMES = ["health", "describe", "_oauth", "_oauth/callback", "_oauth/logout", "_oauth/token", "__upload_url__", "__introspect_token__",
-                    "__session__", ".well-known", "health/x", "healthz", "health_check", "HEALTH", "health.json", "health-check", "describe2", "_oauthx"]
+                    "__session__", ".well-known", ".well-known", ".well-known/oauth-protected-resource", "x/.well-known", "health/x", "healthz", "health_check", "HEALTH", "health.json", "health-check", "describe2", "_oauthx"]
 _VERBS = ["GET", "POST", "POST", "POST", "PUT", "DELETE", "PATCH", "HEAD", "OPTIONS"]
 _ACCEPTS = [None, "*/*", "text/html", "application/json"]
 
